@@ -8,6 +8,16 @@ VF_NOTE = ("Trusted: Coq kernel, extraction, harness/vf.c (page table and refere
            "The byte-level page search/bisection is abstracted to its result on the page table (validated by the tie on every run, not proved). "
            "Print Assumptions: closed under the global context.")
 CHECKS = {
+ "C12": {
+  "category": "proof",
+  "text": "Proved: the close callback runs only in ov_clear, once per source the library came to own and never after a failed open (Ledger.v, all op sequences); "
+          "no read/seek/half-rate operation of VFile.v modifies the link and page tables built at open, from which every later seek is computed. That each faulted call "
+          "returns a documented code, terminates, leaves the source unclosed, that a failed open zeroes the handle, and that after the fault a seek + reads equal a "
+          "never-faulted twin bit for bit is decided by systematic fault enumeration on every run (5 fault kinds x one-shot/persisting x callback index k x open / read / "
+          "pcm-seek / page+raw+time-seek / lapped+half-rate scenarios).",
+  "note": VF_NOTE + " The fault behaviour of the C code itself (which error exit is taken) is not modelled: it is enumerated.",
+  "technique": "Coq proof (ownership automaton, table immutability) + fault enumeration with clean-twin comparison",
+ },
  "C19": {
   "category": "proof",
   "text": "Proved (Overlap.v): vorbis_synthesis_lapout exposes contiguously, in order and inside the buffer exactly what a read would have returned next "
